@@ -34,16 +34,19 @@ CHECK = "check_case"
 MODEL = "model_of"
 RULE = ("A-cases: decorator configurations api in {attr.s, define, frozen} x auto_detect x auto_exc x slots x "
         "eq/cmp in {unset,T,F} x hash x unsafe_hash in {unset,T,F} (+ a non-bool in the malformed stream) x frozen x "
-        "own __hash__ x own {__eq__,__ne__} x field x with/without an eq key (seeded) x cache_hash x init in {default, init=False, own __init__} x base class "
+        "own __hash__ x own {__eq__,__ne__} (a fresh function, or the base class's own object re-bound in the body) x field x with/without an eq key (seeded) x cache_hash x init in {default, init=False, own __init__} x base class "
         "in {object, plain class with __hash__, Exception, BaseException, attrs bases: frozen / frozen+cache_hash / unsafe_hash / "
         "unsafe_hash+cache_hash / unhashable / eq=False / frozen caching exception / hashable exception / define-frozen, "
         "each dict and slotted}; thorough = the full product over 7 base kinds for attr.s and define plus seeded random "
         "configurations over everything; quick = every row of the decision-relevant product (api x auto_detect x "
         "auto_exc x eq x hash x unsafe_hash x frozen x own __hash__ x own __eq__/__ne__ x (frozen base, exception "
         "base)) with the remaining dimensions drawn from the seed, plus seeded random configurations. "
-        "M-cases: classes over per-field hash in {None,T,F} x eq in {T,F,key0,key1} (all 12 one-field and all 144 "
-        "two-field classes, random three-field classes) x cache_hash x frozen x slots x api x inheritance split x class-level eq in {generated, eq=False, own "
-        "__eq__ auto-detected} (unsafe_hash=True); all "
+        "M-cases: classes over per-field hash in {None,T,F} x eq in {T,F,key0,key1, and FALSY callable objects for "
+        "key0/key1: callable empty dict subclass / __bool__ False / __len__ 0; keys passed as eq= or cmp=} (all 18 "
+        "one-field classes, all 144 two-field classes over truthy keys plus all 180 two-field classes with a falsy key, "
+        "random three-field classes) x cache_hash x frozen x slots x api x inheritance split x class-level eq in {generated, eq=False, own "
+        "__eq__ auto-detected} (unsafe_hash=True); observed besides == pairs and hash partition: which fields advertise "
+        "an eq_key; all "
         "instances over {0,1,2}^k, all ordered pairs.  H-cases: the same classes, fixed histories (repeat, copy, "
         "deepcopy, pickle, evolve, assignment, fresh equal instance) and seeded random histories up to length 9. "
         "distinct = distinct (kind, input); non-trivial = A: not the all-default configuration; M: at least two "
@@ -94,6 +97,67 @@ def _coq_ob(v):
     return "None" if v is None else "(Some %s)" % b(v)
 
 
+def _is_name(n, name):
+    return isinstance(n, ast.Name) and n.id == name
+
+
+def _is_none(n):
+    return isinstance(n, ast.Constant) and n.value is None
+
+
+def _classify_presence_test(test):
+    """`if a.eq_key:` -> KTruthy ; `if a.eq_key is not None:` -> KIsNotNone ; anything else KUnknown"""
+    def is_key(n):
+        return isinstance(n, ast.Attribute) and n.attr == "eq_key" and isinstance(n.value, ast.Name)
+    if is_key(test):
+        return "KTruthy"
+    if (isinstance(test, ast.Compare) and is_key(test.left) and len(test.ops) == 1
+            and isinstance(test.ops[0], ast.IsNot) and _is_none(test.comparators[0])):
+        return "KIsNotNone"
+    return "KUnknown"
+
+
+def _site_test(fn):
+    """the presence test of the single `if <... a.eq_key ...>:` inside function `fn`"""
+    ifs = [n for n in ast.walk(fn) if isinstance(n, ast.If)
+           and any(isinstance(m, ast.Attribute) and m.attr == "eq_key" for m in ast.walk(n.test))]
+    return _classify_presence_test(ifs[0].test) if len(ifs) == 1 else "KUnknown"
+
+
+def _norm_test(make):
+    """Attribute.__init__: the expression handed to _determine_attrib_eq_order for eq:
+    `eq_key or eq` -> KTruthy ; `eq if eq_key is None else eq_key` (or mirrored) -> KIsNotNone"""
+    for n in make.body:
+        if isinstance(n, ast.ClassDef) and n.name == "Attribute":
+            for f in n.body:
+                if isinstance(f, ast.FunctionDef) and f.name == "__init__":
+                    calls = [c for c in ast.walk(f) if isinstance(c, ast.Call)
+                             and _is_name(c.func, "_determine_attrib_eq_order")]
+                    if len(calls) != 1 or len(calls[0].args) < 2:
+                        return "KUnknown"
+                    e = calls[0].args[1]
+                    if (isinstance(e, ast.BoolOp) and isinstance(e.op, ast.Or) and len(e.values) == 2
+                            and _is_name(e.values[0], "eq_key") and _is_name(e.values[1], "eq")):
+                        return "KTruthy"
+                    if isinstance(e, ast.IfExp) and isinstance(e.test, ast.Compare) and len(e.test.ops) == 1 \
+                            and _is_name(e.test.left, "eq_key") and _is_none(e.test.comparators[0]):
+                        if isinstance(e.test.ops[0], ast.Is) and _is_name(e.body, "eq") and _is_name(e.orelse, "eq_key"):
+                            return "KIsNotNone"
+                        if isinstance(e.test.ops[0], ast.IsNot) and _is_name(e.body, "eq_key") and _is_name(e.orelse, "eq"):
+                            return "KIsNotNone"
+                    return "KUnknown"
+    return "KUnknown"
+
+
+def _key_test_lines(make):
+    fns = {n.name: n for n in make.body if isinstance(n, ast.FunctionDef)}
+    eq_t = _site_test(fns["_make_eq_script"]) if "_make_eq_script" in fns else "KUnknown"
+    hash_t = _site_test(fns["_make_hash_script"]) if "_make_hash_script" in fns else "KUnknown"
+    return ["(* how Attribute.__init__ / _make_eq_script / _make_hash_script test for the presence of an eq key *)",
+            "From Attrs Require Import C04.Model.",
+            "Definition src_key_tests : ktests := KT %s %s %s." % (_norm_test(make), eq_t, hash_t)]
+
+
 def pre_build():
     src = os.path.join(vlib.REPO, "src", "attr")
     make = ast.parse(open(os.path.join(src, "_make.py")).read())
@@ -133,6 +197,7 @@ def pre_build():
               "Definition src_frozen_partial_of_define : bool := %s." % b(part.args[0].id == "define"),
               "Definition src_frozen_overrides : list (option (option bool)) :=", "  [",
               ";\n".join(over) + "]."]
+    lines += _key_test_lines(make)
     text = "\n".join(lines) + "\n"
     path = os.path.join(vlib.THEORIES, "Gen", "C04_consts.v")
     old = open(path).read() if os.path.exists(path) else None
@@ -163,6 +228,16 @@ def _user_ne(self, other):
 def _akey(v):
     """eq key of field x in A-configurations with xkey"""
     return v
+
+
+class _AFalsyKey(list):
+    """a falsy key callable (xkey == "f")"""
+
+    def __call__(self, v):
+        return v
+
+
+_akey_f = _AFalsyKey()
 
 
 def _plain_hash(self):
@@ -264,16 +339,18 @@ def run_A(cf):
         return ("other", "base could not be built")
     name = "C%d" % next(_serial)
     ns = {"__module__": SYN}
-    xeq = {"eq": _akey} if cf.get("xkey") else {}
+    xeq = {"eq": _akey_f} if cf.get("xkey") == "f" else {"eq": _akey} if cf.get("xkey") else {}
     if cf["api"] == "S":
         ns["x"] = attr.ib(default=0, **xeq)
     else:
         ns["__annotations__"] = {"x": int}
         ns["x"] = attrs.field(default=0, **xeq) if xeq else 0
+    # "base": the body re-binds the very object the base class provides (`__hash__ = Base.__hash__`), which
+    # is an own definition as far as the class dict is concerned
     if cf["ohash"]:
-        ns["__hash__"] = _user_hash
+        ns["__hash__"] = base.__hash__ if cf["ohash"] == "base" else _user_hash
     if cf["oeq"]:
-        ns["__eq__"] = _user_eq
+        ns["__eq__"] = base.__eq__ if cf["oeq"] == "base" else _user_eq
     if cf["one"]:
         ns["__ne__"] = _user_ne
     if cf["oinit"]:
@@ -304,14 +381,15 @@ def run_A(cf):
         entry = "EAbsent" if cls.__hash__ is base.__hash__ else "?"
     else:
         h = d["__hash__"]
-        entry = "ENone" if h is None else "EUser" if h is _user_hash else "EGen" if is_generated(h) else "?"
+        own = h is _user_hash or (cf["ohash"] == "base" and h is base.__hash__)
+        entry = "ENone" if h is None else "EUser" if own else "EGen" if is_generated(h) else "?"
     if entry == "?":
         return ("other", "unclassifiable __hash__ entry")
     if entry == "EGen" and next(_tie_tick) % _TIE_EVERY[0] == 0:
         # the class as the B-model sees it: inherited bx (if the base is an attrs class) then x; the frozen
         # flag handed to _make_hash_script is is_frozen
         fl = (["(F None EqT)"] if len(cls.__attrs_attrs__) == 2 else []) + \
-             ["(F None %s)" % ("(EqK K0)" if cf.get("xkey") else "EqT")]
+             ["(F None %s)" % ("(EqK K0f)" if cf.get("xkey") == "f" else "(EqK K0)" if cf.get("xkey") else "EqT")]
         _collect_script(cls, "(Cl 0 0%%Z %s %s %s %s true)" % (
             lst(fl), b(cf["cache"]), b(_is_frozen_cf(cf)), b(_slots_cf(cf))))
     try:
@@ -427,6 +505,7 @@ def _passed(api, key, val, rng, p_explicit):
     return val
 
 
+REBIND_BASES = {"obj", "plain", "exc", "bexc", "eqf"}
 INIT_SPECS = [(False, None, False), (True, None, False), (True, False, False), (True, None, True)]  # cache, init, oinit
 OWN_CMP = [(False, False), (True, False), (False, True)]
 
@@ -441,7 +520,7 @@ def gen_A(tier, rng):
                 out.append(dict(api=api, ad=_passed(api, "ad", ad, None, 0), ax=_passed(api, "ax", ax, None, 0),
                                 sl=_passed(api, "sl", sl, None, 0), cmp=None, eq=eq, hash=h, unsafe=u,
                                 frozen=_passed(api, "frozen", fz, None, 0), ohash=oh, oeq=oe, one=on, cache=ca,
-                                init=ini, oinit=oi, base=base, bsl=sl, xkey=rng.random() < 0.5))
+                                init=ini, oinit=oi, base=base, bsl=sl, xkey=rng.choice((False, True, "f"))))
         n_random = 20000
     else:
         for api, ad, ax in itertools.product("SD", (False, True), (False, True)):
@@ -458,7 +537,7 @@ def gen_A(tier, rng):
                                     cmp=None, eq=eq, hash=h, unsafe=u,
                                     frozen=_passed(api, "frozen", fz, rng, 0.2), ohash=oh, oeq=oe, one=on,
                                     cache=ca, init=ini, oinit=oi, base=rng.choice(DECISION_BASES[bkey]),
-                                    bsl=rng.random() < 0.5, xkey=rng.random() < 0.5))
+                                    bsl=rng.random() < 0.5, xkey=rng.choice((False, True, "f"))))
         n_random = 2500
     for _ in range(n_random):
         api = rng.choice("SSDDF")
@@ -478,8 +557,16 @@ def gen_A(tier, rng):
         cf["oinit"] = rng.random() < 0.3
         cf["base"] = rng.choice(ALL_BASES)
         cf["bsl"] = rng.random() < 0.5
-        cf["xkey"] = rng.random() < 0.5
+        cf["xkey"] = rng.choice((False, True, "f"))
         out.append(cf)
+    # own __hash__ / __eq__ that re-bind the base's object (only below bases whose __hash__ / __eq__ are not
+    # attrs-generated, so that provenance stays classifiable)
+    for cf in out:
+        if cf["base"] in REBIND_BASES:
+            if cf["ohash"] and rng.random() < 0.5:
+                cf["ohash"] = "base"
+            if cf["oeq"] and rng.random() < 0.5:
+                cf["oeq"] = "base"
     return out
 
 
@@ -525,9 +612,56 @@ def key1(a):
     return V(0, a.t)
 
 
+# FALSY key callables: objects that are callable (so attrs accepts them as a key) and whose truth value is
+# False - a callable container that is still empty, an object with __bool__ / __len__.
+class _FalsyDictKey(dict):
+    def __init__(self, fn):
+        dict.__init__(self)
+        self.fn = fn
+
+    def __call__(self, a):
+        return self.fn(a)
+
+
+class _FalsyBoolKey:
+    def __init__(self, fn):
+        self.fn = fn
+
+    def __bool__(self):
+        return False
+
+    def __call__(self, a):
+        return self.fn(a)
+
+
+class _FalsyLenKey:
+    def __init__(self, fn):
+        self.fn = fn
+
+    def __len__(self):
+        return 0
+
+    def __call__(self, a):
+        return self.fn(a)
+
+
+FALSY_KINDS = {"dict": _FalsyDictKey, "bool": _FalsyBoolKey, "len": _FalsyLenKey}
+_FALSY = {(kind, name): ctor(fn) for kind, ctor in FALSY_KINDS.items() for name, fn in (("K0f", key0), ("K1f", key1))}
+assert all(callable(k) and not k for k in _FALSY.values())
+
 _EQ = {"T": True, "F": False, "K0": key0, "K1": key1}
-_EQ_COQ = {"T": "EqT", "F": "EqF", "K0": "(EqK K0)", "K1": "(EqK K1)"}
+
+
+def _eq_value(e, cd):
+    """the object passed as eq= / cmp= for the field eq spec `e`"""
+    if e in ("K0f", "K1f"):
+        return _FALSY[(cd.get("fk", "dict"), e)]
+    return _EQ[e]
+
+
+_EQ_COQ = {"T": "EqT", "F": "EqF", "K0": "(EqK K0)", "K1": "(EqK K1)", "K0f": "(EqK K0f)", "K1f": "(EqK K1f)"}
 FIELD_CFGS = [(h, e) for h in (None, True, False) for e in ("T", "F", "K0", "K1")]
+FIELD_CFGS_FALSY = [(h, e) for h in (None, True, False) for e in ("K0f", "K1f")]
 
 # class description: dict(api "S"|"D", fields [(hash, eq)], cache, frozen, slots, split, bcache, explicit)
 #   split = number of leading fields that live in an attrs base class (0 = no base)
@@ -559,11 +693,14 @@ def build_B(cd):
         ann = {}
         for i in idxs:
             h, e = fields[i]
+            ev = _eq_value(e, cd)
             if cd["api"] == "S":
-                ns["f%d" % i] = attr.ib(hash=h, eq=_EQ[e])
+                # a key may also arrive through cmp= (eq and order key at once)
+                via = "cmp" if (cd.get("via_cmp") and e not in ("T", "F")) else "eq"
+                ns["f%d" % i] = attr.ib(hash=h, **{via: ev})
             else:
                 ann["f%d" % i] = object
-                ns["f%d" % i] = attrs.field(hash=h, eq=_EQ[e])
+                ns["f%d" % i] = attrs.field(hash=h, eq=ev)
         if cd["api"] != "S":
             ns["__annotations__"] = ann
         c0 = type(name, (parent,), ns)
@@ -615,18 +752,20 @@ def run_M(cd, vecs):
     lab = _Labels()
     labels = [lab(hash(x)) for x in insts]
     eqp = [(i, j) for i in range(len(insts)) for j in range(len(insts)) if insts[i] == insts[j]]
-    return {"eq": eqp, "labels": labels}
+    keys = [a_.eq_key is not None for a_ in attr.fields(cls)]
+    return {"eq": eqp, "labels": labels, "keys": keys}
 
 
 def mk_M(cd, vecs):
     try:
         seen = run_M(cd, vecs)
-        term = "(CM %s %s %s %s)" % (
+        term = "(CM %s %s %s %s %s)" % (
             enc_cls(cd), lst(lst(str(v) for v in vs) for vs in vecs),
-            lst("(%d,%d)" % p for p in seen["eq"]), lst(str(x) for x in seen["labels"]))
+            lst("(%d,%d)" % p for p in seen["eq"]), lst(str(x) for x in seen["labels"]),
+            lst(b(x) for x in seen["keys"]))
     except Exception as e:  # the class cannot be built / hashed: show it as a mismatch, never crash
         seen = {"error": "%s: %s" % (type(e).__name__, e)}
-        term = "(CM %s %s [] [])" % (enc_cls(cd), lst(lst(str(v) for v in vs) for vs in vecs))
+        term = "(CM %s %s [] [] [])" % (enc_cls(cd), lst(lst(str(v) for v in vs) for vs in vecs))
     inp = {"t": "M", "cd": cd, "vecs": [list(v) for v in vecs]}
     return Case(term, inp, seen, sig={"case": "M"}, nontrivial=len(vecs) >= 2,
                 key="M" + repr((sorted(cd.items()), vecs)))
@@ -756,13 +895,18 @@ def _class_descs(tier, rng):
         d = dict(api=api or rng.choice("SD"), fields=[list(f) for f in fields], cache=cache, frozen=frozen,
                  slots=slots, split=rng.randint(0, k) if split is None else split,
                  bcache=rng.random() < 0.5, explicit=rng.random() < 0.5)
+        d["fk"] = rng.choice(sorted(FALSY_KINDS))      # which kind of falsy callable stands for K0f / K1f
+        d["via_cmp"] = rng.random() < 0.25            # keys passed as cmp= instead of eq= (attr.ib only)
         d["ceq"] = ceq or rng.choice(("gen", "gen", "off", "own"))
         if d["ceq"] == "off":
             d["split"] = 0   # below an attrs base the base's generated __eq__ would be inherited
         d["mixed"] = bool(d["split"] > 0 and not slots and rng.random() < 0.3)
         return d
 
-    for f in FIELD_CFGS:
+    # two-field classes with at least one falsy key callable
+    falsy_pairs = ([(f, g) for f in FIELD_CFGS_FALSY for g in FIELD_CFGS + FIELD_CFGS_FALSY]
+                   + [(f, g) for f in FIELD_CFGS for g in FIELD_CFGS_FALSY])
+    for f in FIELD_CFGS + FIELD_CFGS_FALSY:
         for ca, fz, sl in flags:
             for api in "SD":
                 for ceq in ("gen", "off", "own"):
@@ -774,16 +918,27 @@ def _class_descs(tier, rng):
                     out.append(desc([f, g], ca, fz, sl, split=split, ceq="gen"))
                 out.append(desc([f, g], ca, fz, sl, ceq="off"))
                 out.append(desc([f, g], ca, fz, sl, ceq="own"))
+        for f, g in falsy_pairs:
+            for ceq in ("gen", "gen", "off", "own"):
+                for _ in range(2):
+                    ca, fz, sl = rng.choice(flags)
+                    out.append(desc([f, g], ca, fz, sl, ceq=ceq))
+        for f, g in falsy_pairs:
+            ca, fz, sl = rng.choice(flags)
+            out.append(desc([f, g], ca, fz, sl))
         n3 = 1500
     else:
         for f, g in itertools.product(FIELD_CFGS, repeat=2):
             for ceq in ("gen", "off", "own"):
                 ca, fz, sl = rng.choice(flags)
                 out.append(desc([f, g], ca, fz, sl, ceq=ceq))
+        for f, g in falsy_pairs:
+            ca, fz, sl = rng.choice(flags)
+            out.append(desc([f, g], ca, fz, sl))
         n3 = 150
     for _ in range(n3):
         ca, fz, sl = rng.choice(flags)
-        out.append(desc([rng.choice(FIELD_CFGS) for _ in range(3)], ca, fz, sl))
+        out.append(desc([rng.choice(FIELD_CFGS + FIELD_CFGS_FALSY) for _ in range(3)], ca, fz, sl))
     return out
 
 
